@@ -67,6 +67,16 @@ pub fn sanitize(s: &str) -> String {
     out
 }
 
+/// Lean keywords cannot be binder names
+pub fn binder(s: &str) -> String {
+    const KW: [&str; 24] = ["open", "end", "at", "from", "then", "else", "fun", "by", "do", "in", "let", "have", "show", "match", "with", "if", "namespace", "section", "def", "theorem", "instance", "structure", "where", "variable"];
+    if KW.contains(&s) {
+        format!("{}_", s)
+    } else {
+        s.to_string()
+    }
+}
+
 impl Tr {
     pub fn new(width: Width) -> Self {
         Tr {
@@ -76,6 +86,7 @@ impl Tr {
     }
 
     fn param(&mut self, name: String) -> String {
+        let name = binder(&name);
         self.env.params.insert(name.clone());
         name
     }
@@ -368,6 +379,9 @@ impl Tr {
                 let args: Vec<&Expr> = c.args.iter().collect();
                 match (f.as_str(), args.len()) {
                     ("Some", 1) => Ok(format!("(some {})", self.expr(args[0])?)),
+                    // durations are carried as microseconds
+                    ("Duration::from_millis", 1) | ("std::time::Duration::from_millis", 1) => Ok(format!("({} * 1000)", self.expr(args[0])?)),
+                    ("Duration::from_micros", 1) | ("std::time::Duration::from_micros", 1) => self.expr(args[0]),
                     ("min", 2) | ("std::cmp::min", 2) | ("cmp::min", 2) => Ok(format!(
                         "(Nat.min {} {})",
                         self.expr(args[0])?,
